@@ -19,12 +19,13 @@ import (
 
 // vEVM stands for the EVM module with ERC20 contracts deployed: per (contract, holder) balances and a
 // per-contract total supply; mint/burn are reserved to the token module's address.  A contract may be
-// made to revert, or to misbehave (credit less than asked) - the keeper must then fail as a whole.
+// made to revert, or to misbehave (credit or debit one unit less or more than asked) - the keeper must then fail as a whole.
 type vEVM struct {
 	bal       map[string]*big.Int
 	supply    map[string]*big.Int
 	revert    bool // mint / burn revert
-	shortMint bool // mint credits one unit less than asked
+	mintSkew  int64 // mint credits this much more (less) than asked
+	burnSkew  int64 // burn debits this much more (less) than asked
 	module    common.Address
 }
 
@@ -57,7 +58,7 @@ func (v *vEVM) snapshot() *vEVM {
 	for k, x := range v.supply {
 		c.supply[k] = x
 	}
-	c.revert, c.shortMint = v.revert, v.shortMint
+	c.revert, c.mintSkew, c.burnSkew = v.revert, v.mintSkew, v.burnSkew
 	return c
 }
 func (v *vEVM) restore(c *vEVM) { v.bal, v.supply = c.bal, c.supply }
@@ -78,8 +79,8 @@ func (v *vEVM) ApplyMessage(ctx sdk.Context, msg core.Message, tracer vm.EVMLogg
 		if v.revert || msg.From() != v.module {
 			return &types.Result{VMError: "execution reverted"}, nil
 		}
-		if v.shortMint {
-			amt = new(big.Int).Sub(amt, big.NewInt(1))
+		if v.mintSkew != 0 {
+			amt = new(big.Int).Add(amt, big.NewInt(v.mintSkew))
 		}
 		if commit {
 			v.set(contract, to, new(big.Int).Add(v.get(contract, to), amt))
@@ -89,6 +90,9 @@ func (v *vEVM) ApplyMessage(ctx sdk.Context, msg core.Message, tracer vm.EVMLogg
 		from, amt := args[0].(common.Address), args[1].(*big.Int)
 		if v.revert || msg.From() != v.module || v.get(contract, from).Cmp(amt) < 0 {
 			return &types.Result{VMError: "execution reverted"}, nil
+		}
+		if v.burnSkew != 0 && v.get(contract, from).Cmp(new(big.Int).Add(amt, big.NewInt(v.burnSkew))) >= 0 {
+			amt = new(big.Int).Add(amt, big.NewInt(v.burnSkew))
 		}
 		if commit {
 			v.set(contract, from, new(big.Int).Sub(v.get(contract, from), amt))
@@ -142,11 +146,17 @@ func VerifC10_SwapERC20() {
 	erc20Held := verifIntIn("erc20Held", big.NewInt(0), w)
 	e.evm.set(e.contract, tkEth(e.stranger), erc20Held.BigInt())
 	e.evm.set(e.contract, tkEth(e.other), verifIntIn("erc20Others", big.NewInt(0), w).BigInt())
-	switch verifChoice("contractMode", 3) {
+	switch verifChoice("contractMode", 6) {
 	case 1:
 		e.evm.revert = true
 	case 2:
-		e.evm.shortMint = true
+		e.evm.mintSkew = -1
+	case 3:
+		e.evm.mintSkew = 1 // credits more than asked
+	case 4:
+		e.evm.burnSkew = -1 // debits less than asked
+	case 5:
+		e.evm.burnSkew = 1
 	}
 	if verifChoice("erc20Enabled", 2) == 0 {
 		p := e.k.GetParams(e.ctx)
@@ -194,10 +204,18 @@ func VerifC10_SwapERC20() {
 	if err != nil {
 		verifCover("refused")
 		verifAssert(nat1.Cmp(nat0) == 0 && sup1.Cmp(sup0) == 0 && rnat1.Cmp(rnat0) == 0 && es1.Cmp(es0) == 0 && er1.Cmp(er0) == 0 && esup1.Cmp(esup0) == 0, "a conversion that fails changes neither side")
+		// liveness: a conversion is refused only for a reason
+		reason := !e.k.ERC20Enabled(e.ctx) || denom != e.tok.MinUnit || e.evm.revert
+		if toERC20 {
+			reason = reason || e.evm.mintSkew != 0 || nat0.Cmp(amt.BigInt()) < 0
+		} else {
+			reason = reason || e.evm.burnSkew != 0 || es0.Cmp(amt.BigInt()) < 0 || e.bank.blocked[receiver.String()]
+		}
+		verifAssert(reason, "a conversion the sender can fund, through a well-behaved bound contract, to a receiver that can be credited, is carried out")
 		return
 	}
 	a := amt.BigInt()
-	verifAssert(e.k.ERC20Enabled(e.ctx) && denom == e.tok.MinUnit && !e.evm.revert && !(toERC20 && e.evm.shortMint), "conversions need the feature enabled, a bound token and a well-behaved contract")
+	verifAssert(e.k.ERC20Enabled(e.ctx) && denom == e.tok.MinUnit && !e.evm.revert && !(toERC20 && e.evm.mintSkew != 0), "conversions need the feature enabled, a bound token and a well-behaved contract")
 	verifAssert(verifAdd(sup1, esup1).Cmp(verifAdd(sup0, esup0)) == 0, "native supply + ERC20 supply is unchanged")
 	verifAssert(e.bank.get(vModuleAddr(types.ModuleName), denom).Sign() == 0, "nothing is left in the token module account")
 	if toERC20 {
